@@ -64,7 +64,9 @@ def float_to_fp(signed, n_bits, n_frac):
         value : float
             The value to convert.
         """
-        int_val = int(scale * value)
+        # float(): a NumPy float16 / float32 scalar would otherwise make the
+        # product a value of that narrow type (2.0**16 is inf as a float16)
+        int_val = int(scale * float(value))
         return max((min(max_v, int_val), min_v))
 
     return bitsk
@@ -186,7 +188,8 @@ def float_to_fix(signed, n_bits, n_frac):
         value : float
             The value to convert.
         """
-        value = np.clip(value, min_v, max_v)
+        # float(): see float_to_fp
+        value = np.clip(float(value), min_v, max_v)
 
         if value < 0:
             fp_val = (1 << n_bits) + int(value * 2**n_frac)
@@ -264,6 +267,9 @@ def fix_to_float(signed, n_bits, n_frac):
         value : int
             The fix point value as an integer.
         """
+        # int(): a NumPy unsigned scalar (e.g. an element of a uint8 array)
+        # cannot hold `value - (1 << n_bits)`
+        value = int(value)
         if signed and value & (1 << (n_bits - 1)):
             # If signed and negative
             value -= (1 << n_bits)
